@@ -99,6 +99,9 @@ def do_run(names, tier, props=None, jobs=1):
         if not os.path.exists(mpath):
             continue
         m = json.load(open(mpath, encoding="utf8"))
+        if m.get("retired"):
+            print("%-40s RETIRED %s" % (name, m["retired"][:120]))
+            continue
         targets = props or m.get("checked_by", [m["property"]])
         try:
             with _GIT:
